@@ -5,6 +5,7 @@ import (
 	"reflect"
 	"strconv"
 	"strings"
+	"sync"
 	"testing"
 	"unicode"
 	"unicode/utf8"
@@ -637,5 +638,48 @@ func TestEndToEndDataIsNotTagText(t *testing.T) {
 			t.Fatalf("C19: %s:%q with c19.text=%q: IsRequired()=%v after processing, explicit required=false in the tag: %v", tagKey, tag, text, spy.required, ts.optional())
 		}
 		kit.Rec.Case(fmt.Sprintf("data %s:%q text=%q", tagKey, tag, text), strings.ContainsAny(text, ",="), "e2e-data-not-tag-text")
+	})
+}
+
+// ---- parsing from several goroutines at once -------------------------------------------------------------------------
+
+// TestParseConcurrently: parsing a tag is a pure function of the tag text; tags parsed on several goroutines at the
+// same time (the container scans its components in parallel) come out exactly as when parsed alone.
+func TestParseConcurrently(t *testing.T) {
+	kit.Rec.Rule(rule)
+	rapid.Check(t, func(t *rapid.T) {
+		n := rapid.IntRange(2, 8).Draw(t, "goroutines")
+		tags := make([]tagStruct, n)
+		for i := range tags {
+			tags[i] = genTag(t)
+		}
+		errs := make([]error, n)
+		var wg sync.WaitGroup
+		start := make(chan struct{})
+		for i := range tags {
+			wg.Add(1)
+			go func(i int) {
+				defer wg.Done()
+				<-start
+				for rep := 0; rep < 20 && errs[i] == nil; rep++ {
+					errs[i] = checkFaithful(tags[i])
+				}
+			}(i)
+		}
+		close(start)
+		wg.Wait()
+		for i, err := range errs {
+			if err != nil {
+				t.Fatalf("C19: parsed concurrently with %d other tags: %v", n-1, err)
+			}
+			_ = i
+		}
+		var d []string
+		args := 0
+		for _, ts := range tags {
+			d = append(d, ts.render())
+			args += len(ts.Args)
+		}
+		kit.Rec.Case("concurrent "+strings.Join(d, " | "), args >= 2, "parsed-concurrently")
 	})
 }
